@@ -850,19 +850,32 @@ def query7(ctx) -> List[Ob]:
         out.append(unresolved("QUERY-7", fn.qualname, key, where, "work-list loop not found"))
         return out
     w = wl[0]
-    pops = [s for s in w.body if isinstance(s, ast.Assign) and isinstance(s.value, ast.Call) and isinstance(s.value.func, ast.Attribute) and s.value.func.attr in ("pop", "popleft") and A.unparse(s.value.func.value) == W]
+
+    def _flat(stmts):
+        # a trailing `if <guard>:` without else (the canonical form of an early `continue`) is looked through
+        out_ = list(stmts)
+        while out_ and isinstance(out_[-1], ast.If) and not out_[-1].orelse and E in A.names_in(out_[-1].test):
+            out_ = out_[:-1] + list(out_[-1].body)
+        return out_
+
+    wbody = _flat(w.body)
+    pops = [s for s in wbody if isinstance(s, ast.Assign) and isinstance(s.value, ast.Call) and isinstance(s.value.func, ast.Attribute) and s.value.func.attr in ("pop", "popleft") and A.unparse(s.value.func.value) == W]
     if not pops:
         out.append(unresolved("QUERY-7", fn.qualname, key, where, "the loop does not take a node from the work-list"))
         return out
     n = A.unparse(pops[0].targets[0])
-    news = [s for s in w.body if isinstance(s, ast.Assign) and A.unparse(s.value) == f"{{{n}}}"]
+    news = [s for s in wbody if isinstance(s, ast.Assign) and A.unparse(s.value) == f"{{{n}}}"]
     good = False
     if news:
         NEW = A.unparse(news[0].targets[0])
         augs = [s for s in ast.walk(w) if isinstance(s, ast.AugAssign) and A.unparse(s.target) == NEW]
-        others = [s for s in ast.walk(w) if isinstance(s, (ast.Assign, ast.AugAssign)) and s is not news[0] and s not in augs and NEW in A.names_in(s.targets[0] if isinstance(s, ast.Assign) else s.target)]
-        if len(augs) == 1 and isinstance(augs[0].op, ast.BitOr) and not others:
-            v = augs[0].value
+        # `NEW = NEW | X` is the same update on a local set
+        plain = [s for s in ast.walk(w) if isinstance(s, ast.Assign) and s is not news[0] and A.unparse(s.targets[0]) == NEW and isinstance(s.value, ast.BinOp) and isinstance(s.value.op, ast.BitOr) and A.unparse(s.value.left) == NEW]
+        upd = augs + plain
+        others = [s for s in ast.walk(w) if isinstance(s, (ast.Assign, ast.AugAssign)) and s is not news[0] and s not in upd and NEW in A.names_in(s.targets[0] if isinstance(s, ast.Assign) else s.target)]
+        if len(upd) == 1 and (upd[0] in plain or isinstance(upd[0].op, ast.BitOr)) and not others:
+            v = upd[0].value if upd[0] in augs else upd[0].value.right
+            augs = upd
             pv = None
             if isinstance(v, ast.Call) and (A.dotted(v.func) or "").endswith("reduce") and len(v.args) == 2 and A.unparse(v.args[0]) == "set.intersection":
                 comp = v.args[1]
@@ -879,7 +892,7 @@ def query7(ctx) -> List[Ob]:
                 if isinstance(pv, ast.Name):
                     src = _single_def_value(ctx, fn, pv) or pv
                 guard = next((a for a in A.ancestors(augs[0]) if isinstance(a, ast.If)), None)
-                if A.unparse(src) == f"{P}[{n}]" and guard is not None and A.unparse(guard.test) in (A.unparse(pv), f"len({A.unparse(pv)}) > 0") and guard in w.body:
+                if A.unparse(src) == f"{P}[{n}]" and guard is not None and A.unparse(guard.test) in (A.unparse(pv), f"len({A.unparse(pv)}) > 0") and guard in wbody:
                     good = True
     if good:
         out.append(ok("QUERY-7", fn.qualname, key, ctx.where(fn, news[0]), f"{NEW} = {{{n}}}; if preds: {NEW} |= intersection of {D}[p] for p in {P}[{n}]"))
@@ -887,7 +900,7 @@ def query7(ctx) -> List[Ob]:
         out.append(bad("QUERY-7", fn.qualname, key, ctx.where(fn, w), "the update is not '{n} united with the intersection of the dominator sets of all predecessors of n'"))
     # 4 change propagation
     key = "a changed set is stored and the successors are re-queued"
-    chg = [s for s in w.body if isinstance(s, ast.If) and news and A.unparse(s.test) in (f"{NEW} != {D}[{n}]", f"{D}[{n}] != {NEW}")]
+    chg = [s for s in wbody if isinstance(s, ast.If) and news and A.unparse(s.test) in (f"{NEW} != {D}[{n}]", f"{D}[{n}] != {NEW}")]
     good = False
     if len(chg) == 1 and not chg[0].orelse:
         st = [s for s in chg[0].body if isinstance(s, ast.Assign) and A.unparse(s.targets[0]) == f"{D}[{n}]" and A.unparse(s.value) == NEW]
